@@ -62,10 +62,10 @@ Arguments PDead {V}.
 Record wst (V : Type) := {
   w_pc : pc V;
   w_handled : list tid;       (* tasks w is done with: seen loadable, stored by w, or lost at lock() *)
-  w_scan : list (tid * nat);  (* dependencies w saw NOT loadable since its last action (ghost: when) *)
+  w_scan : list (tid * nat);  (* dependencies w saw NOT loadable since it last stored a result (ghost: when) *)
   w_failed : bool;            (* w saw a task raise *)
   w_intr : bool;              (* w was asked to stop *)
-  w_last : nat                (* ghost: time of w's last action *)
+  w_last : nat                (* ghost: when w last stored a result *)
 }.
 Arguments w_pc {V} w.
 Arguments w_handled {V} w.
@@ -154,8 +154,11 @@ Section Step.
     {| results := results s; locks := f; ws := ws s; execs := execs s;
        now := now s; stored_at := stored_at s; dumper := dumper s |}.
 
-  (* w acts at time n (anything but a can_load observation): its scan starts afresh *)
+  (* w moves on in its protocol (n: ghost time, unused here) *)
   Definition act (n : nat) (x : wst V) (p : pc V) : wst V :=
+    {| w_pc := p; w_handled := w_handled x; w_scan := w_scan x; w_failed := w_failed x; w_intr := w_intr x; w_last := w_last x |}.
+  (* w stores a result at time n: what it saw missing before is stale - its scan starts afresh *)
+  Definition dumped (n : nat) (x : wst V) (p : pc V) : wst V :=
     {| w_pc := p; w_handled := w_handled x; w_scan := []; w_failed := w_failed x; w_intr := w_intr x; w_last := n |}.
   Definition handle (x : wst V) (t : tid) : wst V :=
     {| w_pc := w_pc x; w_handled := t :: w_handled x; w_scan := w_scan x; w_failed := w_failed x;
@@ -184,9 +187,10 @@ Section Step.
 
   Definition scanned (x : wst V) (d : tid) : bool := existsb (fun e => Pos.eqb d (fst e)) (w_scan x).
 
-  (* leaving the loop normally: every task is handled (seen loadable, stored by w, lost at lock(),
-     or failed in w), or excused by a dependency seen not loadable in the scan since the worker's
-     last action ("No tasks can be run!") *)
+  (* leaving normally: every task is handled (seen loadable, stored by w, lost at lock(), or failed
+     in w), or excused by a dependency - through arguments or through a barrier - that w saw not
+     loadable since it last stored a result itself ("No tasks can be run!"; the reload loop of execute
+     giving up at a closed barrier) *)
   Definition may_leave (x : wst V) : bool :=
     forallb (fun t => mem t (w_handled x) || existsb (scanned x) (c_deps C t)) (c_tasks C).
 
@@ -275,7 +279,7 @@ Section Step.
         | PRan t' v' =>
             if Pos.eqb t t' && c_eqb C v v' then
               Some {| results := upd (results s) t (Some v'); locks := locks s;
-                      ws := updw (ws s) w (handle (act n x (PStored t)) t); execs := execs s;
+                      ws := updw (ws s) w (handle (dumped n x (PStored t)) t); execs := execs s;
                       now := now s; stored_at := upd (stored_at s) t n; dumper := upd (dumper s) t (Some w) |}
             else None
         | _ => None
